@@ -37,6 +37,30 @@ ARITH_DUNDERS = {'__add__', '__sub__', '__mul__', '__matmul__', '__truediv__', '
                  '__invert__', '__pos__', '__floordiv__', '__mod__'}
 
 
+_SCALAR_FUNCS = {'float', 'int', 'str', 'bool', 'len', 'round', 'tuple', 'frozenset', 'abs', 'min', 'max', 'sum', 'cosd', 'sind', 'range',
+                 'TypeVar', 'getLogger', 'compile'}
+
+
+def _mutable_expr(e):
+    """does a module-level / default-argument expression denote a mutable object (array, list, dict, instance)?"""
+    if isinstance(e, (ast.List, ast.Dict, ast.Set, ast.ListComp, ast.DictComp, ast.SetComp)):
+        return True
+    if isinstance(e, ast.Call):
+        f = e.func
+        name = f.id if isinstance(f, ast.Name) else (f.attr if isinstance(f, ast.Attribute) else '')
+        src = ast.unparse(f)
+        if name in _SCALAR_FUNCS or src.startswith(('math.', 'datetime.', 'os.', 're.', 'typing.')) or src in ('np.sqrt', 'np.deg2rad', 'np.rad2deg', 'np.float64'):
+            return any(_mutable_expr(a) for a in e.args) and name == 'abs'
+        return True
+    if isinstance(e, ast.BinOp):
+        return _mutable_expr(e.left) or _mutable_expr(e.right)
+    if isinstance(e, ast.UnaryOp):
+        return _mutable_expr(e.operand)
+    if isinstance(e, (ast.Subscript, ast.Attribute)):
+        return _mutable_expr(e.value)
+    return False
+
+
 def is_public(name):
     return (not name.startswith('_')) or name in ('__init__', '__new__') or name in ARITH_DUNDERS
 
@@ -62,6 +86,7 @@ class FuncInfo:
     attrs: list = field(default_factory=list)         # implicit attribute parameters (transitive), sorted
     attrs_written: set = field(default_factory=set)   # transitive
     variants: list = field(default_factory=list)      # e.g. [('inplace', True), ('inplace', False)] or [None]
+    globals: list = field(default_factory=list)       # module-level mutable objects / mutable defaults reachable (transitive), sorted
 
 
 @dataclass
@@ -251,6 +276,8 @@ class Package:
                             src = ast.unparse(n.value) if n.value is not None else ''
                             if 'default_rng' in src or 'RandomState' in src:
                                 tab[x.id] = ('global', x.id)
+                            elif n.value is not None and _mutable_expr(n.value):
+                                tab[x.id] = ('gobj', f'{mod}.{x.id}')      # module-level mutable object shared by every call
                             else:
                                 tab[x.id] = ('const', n.value)
         if not stack:
@@ -373,10 +400,13 @@ class FX:
         self.cinfo = pkg.classes.get(f.cls) if f.cls else None
         # parameter variables first, in callee order
         self.param_names = list(f.params) + ([f.vararg] if f.vararg else []) + ([f.kwarg] if f.kwarg else []) \
-            + [f'{self.me}.{a}' for a in f.attrs]
+            + [f'{self.me}.{a}' for a in f.attrs] + [f'@{g}' for g in f.globals]
         for p in self.param_names:
             self.var(p)
-        self.explicit = [p for p in self.param_names if '.' not in p]
+        self.explicit = [p for p in self.param_names if '.' not in p and not p.startswith('@')]
+        self.globals_direct = set()
+        for g in f.globals:
+            self.info[f'@{g}'] = Val(frozenset([f'@{g}']), 'unk')
         for p in f.params:
             ann = (f.ann.get(p) or '')
             base = ann.replace('Optional[', '').rstrip(']')
@@ -456,13 +486,28 @@ class FX:
         raise Unclassified(f'{why} at line {getattr(node, "lineno", "?")}: {ast.unparse(node)[:60] if isinstance(node, ast.AST) else node}')
 
     # ---------------------------------------------------------- entry
+    def gvar(self, gid):
+        n = f'@{gid}'
+        self.globals_direct.add(gid)
+        self.var(n)
+        self.info.setdefault(n, Val(frozenset([n]), 'unk'))
+        return n
+
     def run(self):
         self._assigned = set()
-        body, _ = self.sub(lambda: self.stmts(self.f.node.body))
+
+        def whole():
+            for p, d in self.f.defaults.items():
+                if _mutable_expr(d):            # a mutable default is ONE object shared by every call that omits the argument
+                    g = self.gvar(f'default:{self.f.qual}.{p}')
+                    self.emit('alias', p, [p, g])
+            return self.stmts(self.f.node.body)
+        body, _ = self.sub(whole)
         prog = [body]
         wr = [f'{self.me}.{a}' for a in sorted(self._nf(self.f))] if self.me else []
-        if wr:
-            prog.append(('alias', '$ret', ['$ret'] + wr))
+        # $ret: what the callable really returns; $out: that plus the attributes it may have rebound (the channel through
+        # which attribute flows reach the caller)
+        prog.append(('alias', self.var('$out'), ['$ret'] + wr))
         return ('seq', prog)
 
     def _nf(self, m):
@@ -743,6 +788,8 @@ class FX:
                 if k[0] == 'global':
                     self.emit('readglobal', 1)
                     return Val(frozenset(), 'obj')
+                if k[0] == 'gobj':
+                    return Val(frozenset([self.gvar(k[1])]), 'unk')
                 if k[0] == 'const':
                     return Val(frozenset(), 'unk')       # module-level constant (numbers / strings / tuples in this package)
                 if k[0] in ('func', 'ext', 'mod'):
@@ -1003,6 +1050,11 @@ class FX:
                     for a in args:
                         self.ev(a)
                     return FRESH
+                if k is not None and k[0] == 'gobj':
+                    b = Val(frozenset([self.gvar(k[1])]), 'unk')
+                    if fn.attr in TB.M_FRESH or fn.attr in TB.M_ALIAS or fn.attr in TB.M_INPLACE or fn.attr in TB.M_STORE:
+                        return self.call_np_method(b, fn.attr, e, args, kws)
+                    self.fail(e, 'method of a module-level object')
                 if k is not None and k[0] == 'const':
                     for a in args:
                         self.ev(a)
@@ -1272,6 +1324,8 @@ class FX:
                             argl.append(self.as_var(recv))
                         else:
                             argl.append('$none')
+                    for g in m.globals:
+                        argl.append(self.gvar(g))
                     self.emit('call', r, callee, argl)
                     self.calls.add(callee)
                 (p, _) = self.sub(one)
